@@ -1,0 +1,33 @@
+//go:build verif
+// +build verif
+
+package util
+
+import "context"
+
+// verifGate is called at the gate points of SimpleTimers (timers.go) with the
+// name of the point and the objects involved. The conformance harness (/verif,
+// property C34) installs a function that records the point and, for forced
+// schedules, blocks the calling goroutine until the schedule releases it.
+// No behaviour is added; without the verif build tag the calls are empty.
+var verifGate = func(string, ...interface{}) {}
+
+// VerifSetGate installs (or, with nil, removes) the gate function.
+func VerifSetGate(f func(point string, args ...interface{})) {
+	if f == nil {
+		f = func(string, ...interface{}) {}
+	}
+
+	verifGate = f
+}
+
+// VerifIterate runs one pass of the timer loop (what the daemon does at every
+// tick of its resolution) in the calling goroutine.
+func (ts *SimpleTimers) VerifIterate(ctx context.Context) error {
+	return ts.iterate(ctx)
+}
+
+// VerifID returns the id a timer was created with.
+func (t *SimpleTimer) VerifID() TimerID {
+	return t.id
+}
